@@ -408,7 +408,7 @@ func runPipeline(c *simrun.Ctx) *simrun.Violation {
 				// the producer's message is built here, with a tape-drawn history
 				// (struct literal with empty non-nil containers and spare capacity,
 				// or reflection with over-filled and truncated lists)
-				h := &simval.History{T: t}
+				h := &simval.History{T: t, EmptyUnknown: t.Chance("empty-unknown", 1, 3)}
 				var err error
 				if t.Chance("build-struct", 1, 2) {
 					h.EmptyNotNil = t.Chance("empty-notnil", 1, 2)
